@@ -84,7 +84,7 @@ def judge(run, trace, name, wd, chunks=8, timeout=3000):
 def explorer(run, wd, thorough):
     spawn = "SpawnSetsAll" if thorough else "SpawnSetsQuick"
     cfg = os.path.join(wd, "gen.cfg")
-    open(cfg, "w").write("CONSTANTS Procs = {0,1,2} HW = {1,2} Threads = {1,2} MaxOps = 2\n"
+    open(cfg, "w").write("CONSTANTS Procs = {0,1,2} HW = {1,2} Threads = {1,2} MaxOps = 2 Faults = TRUE\n"
                          "  Kinds <- KindsDef  RegionOf <- RegionOfDef  SpawnSets <- %s\nSPECIFICATION Spec\n"
                          "INVARIANT TypeOK LibTruthful TPExactOrNamed CacheIsFunctionOfLastPin GenCase\nCHECK_DEADLOCK FALSE\n" % spawn)
     g = tlc(D, "MC_Pinning", cfg=cfg, workers=4, timeout=1500, coverage=thorough)
@@ -98,7 +98,7 @@ def explorer(run, wd, thorough):
     # deeper histories: invariants only (thorough)
     if thorough:
         cfg3 = os.path.join(wd, "deep.cfg")
-        open(cfg3, "w").write("CONSTANTS Procs = {0,1,2} HW = {1,2} Threads = {1,2} MaxOps = 3\n"
+        open(cfg3, "w").write("CONSTANTS Procs = {0,1,2} HW = {1,2} Threads = {1,2} MaxOps = 3 Faults = TRUE\n"
                               "  Kinds <- KindsDef  RegionOf <- RegionOfDef  SpawnSets <- SpawnSetsAll\nSPECIFICATION Spec\n"
                               "INVARIANT TypeOK LibTruthful TPExactOrNamed CacheIsFunctionOfLastPin\nCHECK_DEADLOCK FALSE\n")
         d = tlc(D, "MC_Pinning", cfg=cfg3, workers=8, timeout=1500, xmx="8g")
@@ -117,7 +117,8 @@ def check(run):
     write_ndjson(cf, cases)
     # (1) TLC histories on the real kernel + fake, on the H4 platform (harness kernel, ids >= 64) + fake, (thorough) real + H4
     trace = os.path.join(wd, "histories.ndjson")
-    bindings = "RF,LF,RL" if thorough else "RF,LF"
+    # lower case = "full" embedding: the set of all abstract processors is replayed as ALL processors of the instance
+    bindings = "RF,LF,RL,rF,lF,rL" if thorough else "RF,LF,rF,lF"
     vlib.run_bin("h_cpus", ["pin-histories", cf, trace, bindings], env={"VERIF_SEED": run.seed}, timeout=2400)
     n1 = judge(run, trace, "histories", wd, chunks=12)
     recs = [json.loads(x) for x in open(trace).read().splitlines()[3:8]]
